@@ -43,7 +43,8 @@ Inductive ty :=
 | TUnion (l : list ty)        (* typing.Union[...]: flat, duplicate free, at least two members *)
 | TGen (g : gname) (args : list ty)   (* __args__ as CPython stores them (Callable flattened) *)
 | TTup (l : list ty)          (* a Python tuple (only while evaluating a subscript) *)
-| TLst (l : list ty).         (* a Python list  (first argument of Callable) *)
+| TLst (l : list ty)          (* a Python list  (first argument of Callable) *)
+| TPipe (l : list ty).        (* types.UnionType `X | Y`: flat, duplicate free, at least two members *)
 
 Definition gname_eqb (a b : gname) : bool :=
   match a, b with
@@ -52,9 +53,31 @@ Definition gname_eqb (a b : gname) : bool :=
   | _, _ => false
   end.
 
-(* `a == b`.  _UnionGenericAlias.__eq__ is set(self.__args__) == set(other.__args__);
-   _GenericAlias.__eq__ / types.GenericAlias compare origin and the args tuple; classes, None, ...,
-   Any and the unsubscripted typing objects compare by identity.                                *)
+(* list iterators used by the nested fixpoints below (the element function is a Section variable,
+   so that the guard checker accepts `ty_eqb`)                                                   *)
+Section ListIter.
+  Variable A : Type.
+  Variable eq : A -> A -> bool.
+  Fixpoint list_eqb (l1 l2 : list A) {struct l1} : bool :=
+    match l1, l2 with
+    | [], [] => true
+    | x :: r, y :: s => eq x y && list_eqb r s
+    | _, _ => false
+    end.
+  (* every member of l1 is `eq` to some member of l2 *)
+  Definition sub_l (l1 l2 : list A) : bool := forallb (fun x => existsb (eq x) l2) l1.
+  (* every member of l2 has some member of l1 that is `eq` to it *)
+  Definition sub_r (l1 l2 : list A) : bool := forallb (fun y => existsb (fun x => eq x y) l1) l2.
+End ListIter.
+Arguments list_eqb {A} eq l1 l2.
+Arguments sub_l {A} eq l1 l2.
+Arguments sub_r {A} eq l1 l2.
+
+(* `a == b`.  _UnionGenericAlias.__eq__ is set(self.__args__) == set(other.__args__) and accepts a
+   types.UnionType on the other side; types.UnionType compares its args as sets too and defers to the
+   typing object otherwise: the four Union combinations compare as sets.  _GenericAlias.__eq__ /
+   types.GenericAlias compare origin and the args tuple; classes, None, ..., Any and the unsubscripted
+   typing objects compare by identity.                                                            *)
 Fixpoint ty_eqb (a b : ty) {struct a} : bool :=
   match a, b with
   | TNone, TNone => true
@@ -62,33 +85,11 @@ Fixpoint ty_eqb (a b : ty) {struct a} : bool :=
   | TAny, TAny => true
   | TCls n, TCls m => String.eqb n m
   | TBare n, TBare m => String.eqb n m
-  | TUnion l1, TUnion l2 =>
-      (fix sub (l : list ty) : bool :=
-         match l with [] => true | x :: r => existsb (ty_eqb x) l2 && sub r end) l1
-      && forallb (fun y => (fix ex (l : list ty) : bool :=
-                              match l with [] => false | x :: r => ty_eqb x y || ex r end) l1) l2
-  | TGen g1 a1, TGen g2 a2 =>
-      gname_eqb g1 g2 &&
-      (fix eql (l1 l2 : list ty) {struct l1} : bool :=
-         match l1, l2 with
-         | [], [] => true
-         | x :: r, y :: s => ty_eqb x y && eql r s
-         | _, _ => false
-         end) a1 a2
-  | TTup a1, TTup a2 =>
-      (fix eql (l1 l2 : list ty) {struct l1} : bool :=
-         match l1, l2 with
-         | [], [] => true
-         | x :: r, y :: s => ty_eqb x y && eql r s
-         | _, _ => false
-         end) a1 a2
-  | TLst a1, TLst a2 =>
-      (fix eql (l1 l2 : list ty) {struct l1} : bool :=
-         match l1, l2 with
-         | [], [] => true
-         | x :: r, y :: s => ty_eqb x y && eql r s
-         | _, _ => false
-         end) a1 a2
+  | TUnion l1, TUnion l2 | TUnion l1, TPipe l2 | TPipe l1, TUnion l2 | TPipe l1, TPipe l2 =>
+      sub_l ty_eqb l1 l2 && sub_r ty_eqb l1 l2
+  | TGen g1 a1, TGen g2 a2 => gname_eqb g1 g2 && list_eqb ty_eqb a1 a2
+  | TTup a1, TTup a2 => list_eqb ty_eqb a1 a2
+  | TLst a1, TLst a2 => list_eqb ty_eqb a1 a2
   | _, _ => false
   end.
 
@@ -97,6 +98,7 @@ Fixpoint hashable (t : ty) : bool :=
   match t with
   | TLst _ => false
   | TUnion l => forallb hashable l
+  | TPipe l => forallb hashable l
   | TGen _ l => forallb hashable l
   | TTup l => forallb hashable l
   | _ => true
@@ -107,6 +109,7 @@ Fixpoint cls_names (t : ty) : list string :=
   match t with
   | TCls n => [n]
   | TUnion l => flat_map cls_names l
+  | TPipe l => flat_map cls_names l
   | TGen _ l => flat_map cls_names l
   | TTup l => flat_map cls_names l
   | TLst l => flat_map cls_names l
@@ -175,7 +178,7 @@ Fixpoint type_check_all (l : list ty) : outcome (list ty) :=
   end.
 
 Definition flatten_union (l : list ty) : list ty :=
-  flat_map (fun p => match p with TUnion m => m | x => [x] end) l.
+  flat_map (fun p => match p with TUnion m => m | TPipe m => m | x => [x] end) l.
 
 (* typing._deduplicate: the first member of every ==-class is kept, in order *)
 Fixpoint dedupe (seen : list ty) (l : list ty) : list ty :=
@@ -244,6 +247,44 @@ Definition subscript (f s : ty) : outcome ty :=
   end.
 
 (* --------------------------------------------------------------------------------------- *)
+(* X | Y.
+   type.__or__ / types.GenericAlias.__or__ / types.UnionType.__or__ (and their reflected forms) are
+   _Py_union_type_or: both operands have to be None, a class (typing.Any is a class since 3.11), a
+   types.GenericAlias or a types.UnionType; the result is a types.UnionType of the flattened members
+   with None -> NoneType, duplicates removed (GenericAlias pairs by ==, everything else by identity),
+   and the member itself when only one is left.  `None | None`: NoneType has no __or__.
+   Every typing object (List, List[int], Union[...]) defines __or__ / __ror__ as Union[left, right].   *)
+Definition c_unionable (t : ty) : bool :=
+  match t with
+  | TNone | TCls _ | TAny | TPipe _ => true
+  | TGen (GBuiltin _) _ => true
+  | _ => false
+  end.
+
+Definition is_typing_obj (t : ty) : bool :=
+  match t with
+  | TBare _ | TUnion _ => true
+  | TGen (GTyping _) _ => true
+  | _ => false
+  end.
+
+Definition pipe_members (t : ty) : list ty :=
+  match t with TNone => [NoneTypeT] | TPipe l => l | x => [x] end.
+
+Definition or_ty (a b : ty) : outcome ty :=
+  if c_unionable a && c_unionable b then
+    match a, b with
+    | TNone, TNone => Raise TypeErrorC
+    | _, _ =>
+        match dedupe [] (pipe_members a ++ pipe_members b) with
+        | [x] => Ok x
+        | l => Ok (TPipe l)
+        end
+    end
+  else if is_typing_obj a || is_typing_obj b then make_union [a; b]
+  else Raise TypeErrorC.
+
+(* --------------------------------------------------------------------------------------- *)
 (* documented type expressions and their evaluation *)
 
 Inductive texpr :=
@@ -253,6 +294,8 @@ Inductive texpr :=
 | ESub (f s : texpr)          (* f[s]; a subscript `a, b` is ETuple [a; b] *)
 | ETuple (l : list texpr)
 | EList (l : list texpr)
+| EOr (a b : texpr)           (* a | b *)
+| EAttr (e : texpr) (a : string)   (* e.a where e is a name that is not defined (`typing.List`): only the NameError is modelled *)
 | EInvalidSyntax.             (* the text is not a Python expression *)
 
 (* eval(text, globals(), context): the context (locals) is searched first.  Every entry of the
@@ -276,6 +319,8 @@ Fixpoint eval (ctx : list string) (e : texpr) : outcome ty :=
                | [] => Ok []
                | x :: r => bind (eval ctx x) (fun x' => bind (evals r) (fun r' => Ok (x' :: r')))
                end) l) (fun l' => Ok (TLst l'))
+  | EOr a b => bind (eval ctx a) (fun a' => bind (eval ctx b) (fun b' => or_ty a' b'))
+  | EAttr e _ => bind (eval ctx e) (fun _ => Raise AttributeErrorC)
   | EInvalidSyntax => Raise SyntaxErrorC
   end.
 
@@ -292,6 +337,8 @@ Fixpoint enames (e : texpr) : list string :=
   | ESub f s => enames f ++ enames s
   | ETuple l => flat_map enames l
   | EList l => flat_map enames l
+  | EOr a b => enames a ++ enames b
+  | EAttr e _ => enames e
   | _ => []
   end.
 
@@ -352,6 +399,8 @@ Fixpoint wf_expr (e : texpr) : bool :=
           | x => wf_expr x
           end
       end
+  | EOr a b =>
+      wf_expr a && wf_expr b && negb (match a, b with ENone, ENone => true | _, _ => false end)
   | _ => false
   end.
 
